@@ -102,8 +102,9 @@ type compPlan struct {
 	FailConsume  bool
 	// status reports issued from inside Start (C11)
 	StartReports []componentstatus.Status
-	// watcher extension hooks that fail (C10): NotifyConfig / Ready count as failures of start-up, NotReady as a
-	// failure of shutdown
+	// watcher extension hooks that fail (C10). The property speaks of components' Start and Shutdown, not of these hooks:
+	// whether the service passes such an error on is not judged, only that everything is still started at most once and
+	// shut down exactly once, in order
 	FailNotifyConfig, FailReady, FailNotReady bool
 }
 
@@ -944,7 +945,7 @@ func (e *watcherExtension) ComponentStatusChanged(src *componentstatus.InstanceI
 func (e *watcherExtension) NotifyConfig(context.Context, *confmap.Conf) error {
 	e.w.emit("notify-config", e.key, e.gen, "")
 	if e.w.plan(e.key).FailNotifyConfig {
-		e.w.emit("start-fail", e.key, e.gen, "notify-config")
+		e.w.emit("hook-fail", e.key, e.gen, "notify-config")
 		return fmt.Errorf("%s: notify-config: %w", e.key, errStubStart)
 	}
 	return nil
@@ -952,7 +953,7 @@ func (e *watcherExtension) NotifyConfig(context.Context, *confmap.Conf) error {
 func (e *watcherExtension) Ready() error {
 	e.w.emit("ready", e.key, e.gen, "")
 	if e.w.plan(e.key).FailReady {
-		e.w.emit("start-fail", e.key, e.gen, "ready")
+		e.w.emit("hook-fail", e.key, e.gen, "ready")
 		return fmt.Errorf("%s: ready: %w", e.key, errStubStart)
 	}
 	return nil
@@ -960,7 +961,7 @@ func (e *watcherExtension) Ready() error {
 func (e *watcherExtension) NotReady() error {
 	e.w.emit("not-ready", e.key, e.gen, "")
 	if e.w.plan(e.key).FailNotReady {
-		e.w.emit("shutdown-fail", e.key, e.gen, "not-ready")
+		e.w.emit("hook-fail", e.key, e.gen, "not-ready")
 		return fmt.Errorf("%s: not-ready: %w", e.key, errStubShutdown)
 	}
 	return nil
